@@ -230,7 +230,7 @@ func extractCmdClass(t *T) (string, error) {
 	}
 	otherCalls := 0
 	var serveApart, readerApart []string
-	loginBad, idleGuard, noForPlainErrors := false, false, false
+	loginBad, idleGuard, noForPlainErrors, startTLSNo, startTLSKnown := false, false, false, false, false
 	for _, e := range ents {
 		n := e.Name()
 		if !strings.HasSuffix(n, ".go") || strings.HasSuffix(n, "_test.go") {
@@ -271,11 +271,30 @@ func extractCmdClass(t *T) (string, error) {
 			case "handleIdle":
 				pos := firstPosOf(fd.Body, func(x ast.Node) bool { return isCallTo(x, "s.state.Idle", t, rel) })
 				idleGuard = t.guardBefore(rel, fd.Body, pos, "s.state == nil", "ErrNotAuthenticated")
+			case "handleStartTLS":
+				// without TLS configuration: `return response.No(tag)….Send(s)` answers NO and the reader goes on;
+				// returning the response itself as an error makes the reader end the connection without an answer
+				for _, st := range fd.Body.List {
+					ifs, ok := st.(*ast.IfStmt)
+					if !ok || normSrc(t.Src(rel, ifs.Cond)) != "s.tlsConfig == nil" || len(ifs.Body.List) != 1 {
+						continue
+					}
+					if rs, ok := ifs.Body.List[0].(*ast.ReturnStmt); ok && len(rs.Results) == 1 {
+						src := normSrc(t.Src(rel, rs.Results[0]))
+						if strings.HasPrefix(src, "response.No(tag)") {
+							startTLSKnown = true
+							startTLSNo = strings.HasSuffix(src, ".Send(s)")
+						}
+					}
+				}
 			case "handleOther":
 				src := normSrc(t.Src(rel, fd.Body))
 				noForPlainErrors = strings.Contains(src, "if res, ok := response.FromError(err); ok { resCh <- res } else { resCh <- response.No(tag).WithError(err) }")
 			}
 		}
+	}
+	if !startTLSKnown {
+		return "", fmt.Errorf("handleStartTLS: the branch for a missing TLS configuration was not recognised")
 	}
 	sort.Strings(serveApart)
 	sort.Strings(readerApart)
@@ -401,6 +420,8 @@ func extractCmdClass(t *T) (string, error) {
 	sb.WriteString("Definition login_bad_when_authenticated : bool := " + coqBool(loginBad) + ".\n")
 	sb.WriteString("Definition idle_guard_state_nil : bool := " + coqBool(idleGuard) + ".\n")
 	sb.WriteString("Definition plain_errors_answer_no : bool := " + coqBool(noForPlainErrors) + ".\n")
+	sb.WriteString("(* STARTTLS without TLS configuration: true = tagged NO, the connection stays; false = connection ended, no answer *)\n")
+	sb.WriteString("Definition starttls_without_tls_answers_no : bool := " + coqBool(startTLSNo) + ".\n")
 	sb.WriteString("(* internal/backend/backend.go *)\n")
 	sb.WriteString(fmt.Sprintf("Definition max_login_attempts : N := %d.\n", maxAttempts))
 	sb.WriteString("Definition login_serialised_and_waits_for_jail_first : bool := " + coqBool(waitFirst && lockHeld) + ".\n")
